@@ -1,4 +1,5 @@
 import Ruint.Model.Modular
+import Ruint.Gen.WordsValue
 import Ruint.Model.ModularLimbs
 /-! Driver for C10: evaluates the model (`Ruint.Modular.*`) and the spec (ℕ arithmetic: `%`, square-and-multiply
     most-significant-bit first, `Nat.gcd` + extended Euclid on ℤ). -/
@@ -65,7 +66,8 @@ def handle (args : List String) (impl : String) : String × String :=
     | "add" =>
         -- limb-level model (cmp, div, overflowing_add, wrapping_sub on limb lists); must agree with the value level
         let l := ModularL.addMod bits (u bits x) (u bits y) (u bits m)
-        (if l = some (u bits (addMod bits x y m)) then outL l else "model-levels-disagree " ++ outL l,
+        -- value level: the wrapper GENERATED from src/modular.rs in value mode (`Props/C10.gen_add_mod_eq`)
+        (if l = some (u bits (Ruint.Gen.val_add_mod bits (nlimbs bits) x y m)) then outL l else "model-levels-disagree " ++ outL l,
          toHex (if m = 0 then 0 else (x + y) % m))
     | "mul" =>
         -- limb-level model: addmul into nlimbs(2*bits) limbs, then the full `div` model (2N-by-N shape)
@@ -73,7 +75,7 @@ def handle (args : List String) (impl : String) : String × String :=
         (if l = some (u bits (mulMod bits x y m)) ∧ !mulModOverflow bits x y then outL l
          else "model-levels-disagree " ++ outL l,
          toHex (if m = 0 then 0 else (x * y) % m))
-    | "pow" => (toHex (powMod bits x y m), toHex (if m = 0 then 0 else powNat x y m))
+    | "pow" => (toHex (Ruint.Gen.val_pow_mod bits bits (nlimbs bits) x y m), toHex (if m = 0 then 0 else powNat x y m))
     | _ => ("bad-op", "bad-op")
   | [op, bs, xs, zs] =>
     let bits := parseDec bs
@@ -81,7 +83,7 @@ def handle (args : List String) (impl : String) : String × String :=
     match op with
     | "reduce" =>
         let l := ModularL.reduceMod bits (u bits x) (u bits m)
-        (if l = some (u bits (reduceMod x m)) then outL l else "model-levels-disagree " ++ outL l,
+        (if l = some (u bits (Ruint.Gen.val_reduce_mod bits (nlimbs bits) x m)) then outL l else "model-levels-disagree " ++ outL l,
          toHex (if m = 0 then 0 else x % m))
     | "inv" => (outOO (invMod bits x m), outO (if bits = 0 then none else invSpec x m))
     | "invtr" =>
